@@ -998,29 +998,32 @@ Proof.
 Qed.
 
 Theorem accept_drop_sound m script n oi ok : accept_drop m script n oi ok = true ->
-  (exists rq0 rows p r, start m script = (rq0, SPager rows p) /\
-     oi ++ r = map IRow rows ++ items_of (snd (pfuture m p)) ++ [IEnd]) /\
+  (forall rq0 rows p, start m script = (rq0, SPager rows p) ->
+     exists r, oi ++ r = map IRow rows ++ items_of (snd (pfuture m p)) ++ [IEnd]) /\
   (exists r, ok ++ r = map req_key (fst (seq_run m script))) /\
   (forall i st, In (i, st) ok -> st = spec_state (script_pages script) i).
 Proof.
-  unfold accept_drop, seq_run. destruct (start m script) as [rq0 [|e|rows p]] eqn:Hst; try discriminate.
-  destruct (pfuture m p) as [rq ms] eqn:Hp. intros H.
-  apply andb_true_iff in H as [H _]. apply andb_true_iff in H as [H _].
-  apply andb_true_iff in H as [H1 H2].
-  apply (list_eqb_eq item_eqb item_eqb_eq) in H1.
-  apply (is_prefix_spec key_eqb key_eqb_eq) in H2 as [r H2].
-  assert (forall i st, In (i, st) ok -> st = spec_state (script_pages script) i) as Hstates.
-  { intros i st Hin.
-    assert (In (i, st) (map req_key (rq0 ++ rq))) as Hin' by (rewrite <- H2; apply in_or_app; left; exact Hin).
+  intros H.
+  assert (exists r, ok ++ r = map req_key (fst (seq_run m script))) as Hk.
+  { unfold accept_drop, seq_run in *. destruct (start m script) as [rq0 [|e|rows p]] eqn:Hst; try discriminate.
+    - apply andb_true_iff in H as [_ H2]. apply (list_eqb_eq key_eqb key_eqb_eq) in H2.
+      exists []. rewrite app_nil_r. exact H2.
+    - destruct (pfuture m p) as [rq ms] eqn:Hp.
+      apply andb_true_iff in H as [H _]. apply andb_true_iff in H as [H _].
+      apply andb_true_iff in H as [_ H2].
+      apply (is_prefix_spec key_eqb key_eqb_eq) in H2 as [r H2]. exists r. exact H2. }
+  split; [|split; [exact Hk|]].
+  - intros rq0 rows p Hst. unfold accept_drop in H. rewrite Hst in H.
+    destruct (pfuture m p) as [rq ms] eqn:Hp.
+    apply andb_true_iff in H as [H _]. apply andb_true_iff in H as [H _].
+    apply andb_true_iff in H as [H1 _].
+    apply (list_eqb_eq item_eqb item_eqb_eq) in H1.
+    eexists. cbn [snd]. unfold items_of. rewrite H1. apply firstn_skipn.
+  - destruct Hk as [r Hk]. intros i st Hin.
+    assert (In (i, st) (map req_key (fst (seq_run m script)))) as Hin'
+      by (rewrite <- Hk; apply in_or_app; left; exact Hin).
     apply in_map_iff in Hin' as (q & E & Hq).
-    assert (In q (fst (seq_run m script))) as Hq'.
-    { unfold seq_run. rewrite Hst, Hp. exact Hq. }
-    apply seq_states in Hq' as [Hs _]. unfold req_key in E. injection E as <- <-. exact Hs. }
-  repeat split.
-  - exists rq0, rows, p. eexists. split; [reflexivity|]. rewrite Hp. cbn [snd]. unfold items_of.
-    rewrite H1. apply firstn_skipn.
-  - exists r. cbn [fst]. exact H2.
-  - exact Hstates.
+    apply seq_states in Hq as [Hs _]. unfold req_key in E. injection E as <- <-. exact Hs.
 Qed.
 
 Theorem accept_drop_property m script n oi ok :
@@ -1028,14 +1031,14 @@ Theorem accept_drop_property m script n oi ok :
   (exists r, oi ++ r = spec_stream (script_pages script)) /\
   (exists r, ok ++ r = spec_requests m script).
 Proof.
-  intros Hg H. destruct (accept_drop_sound _ _ _ _ _ H) as ((rq0 & rows & p & r & Hst & Ho) & (r2 & Hk) & _).
+  intros Hg H. destruct (accept_drop_sound _ _ _ _ _ H) as (Ho & (r2 & Hk) & _).
   destruct (seq_good m script Hg) as (rq & E & K). split.
-  - exists r. rewrite Ho. unfold seq_run in E. rewrite Hst in E.
+  - unfold seq_run in E. destruct (start m script) as [rq0 [|e|rows p]] eqn:Hst; try discriminate.
+    destruct (Ho rq0 rows p eq_refl) as [r Hr]. exists r. rewrite Hr.
     destruct (pfuture m p) as [rq' ms]. cbn [snd]. unfold items_of.
     destruct (pdone m p); [|discriminate]. injection E as _ <-. reflexivity.
   - exists r2. rewrite Hk, E. exact K.
 Qed.
-
 
 (* ===== part G ===== *)
 (* ---------- the statements of Props/C07.v ---------- *)
@@ -1201,4 +1204,409 @@ Proof.
   intros H. split.
   - exact (proj2 (proj2 (accept_drop_sound m script n oi ok H))).
   - intros Hg. exact (accept_drop_property m script n oi ok Hg H).
+Qed.
+
+(* ===== part H ===== *)
+(* ---------- IgnoreWriteError on page k ---------- *)
+Lemma attempts_ignored : forall pre f post resp t rest,
+  forallb fault_retried pre = true -> (nadv pre <= List.length rest)%nat ->
+  fault_ignored f = true ->
+  exists ts c, attempts (pre ++ f :: post) resp t rest = (ts, FIgnored c).
+Proof.
+  induction pre as [|g pre IH]; intros f post resp t rest Hr Hn Hf.
+  - cbn [app]. destruct f as [|e' d|]; cbn [fault_ignored] in Hf; try discriminate.
+    destruct d; try discriminate. exists [t], t. reflexivity.
+  - cbn [forallb] in Hr. apply andb_true_iff in Hr as [Hg Hr]. unfold nadv in *.
+    destruct g as [|e' d|]; cbn [fault_retried] in Hg; try discriminate.
+    + cbn [filter fault_advances List.length] in Hn.
+      destruct rest as [|t' rest']; cbn [List.length] in Hn; [lia|].
+      destruct (IH f post resp t' rest' Hr ltac:(lia) Hf) as (ts & c & E).
+      exists ts, c. cbn [app attempts]. exact E.
+    + destruct d; try discriminate; cbn [filter fault_advances List.length] in Hn.
+      * destruct (IH f post resp t rest Hr Hn Hf) as (ts & c & E).
+        exists (t :: ts), c. cbn [app attempts]. rewrite E. reflexivity.
+      * destruct rest as [|t' rest']; cbn [List.length] in Hn; [lia|].
+        destruct (IH f post resp t' rest' Hr ltac:(lia) Hf) as (ts & c & E).
+        exists (t :: ts), c. cbn [app attempts]. rewrite E. reflexivity.
+Qed.
+
+Lemma fetch_ignored m stable ps : page_ignored m ps = true ->
+  exists ts c, fetch_one m stable ps = (ts, FIgnored c) /\ m = MSession.
+Proof.
+  destruct m; cbn [page_ignored fetch_one]; intros H; [|discriminate].
+  destruct (split_retried (ps_faults ps)) as [pre x] eqn:Es.
+  apply andb_true_iff in H as [H Hx]. apply andb_true_iff in H as [Hnd Hl].
+  apply Nat.ltb_lt in Hl. destruct x as [f|]; [|discriminate].
+  destruct (split_retried_spec _ _ _ Es) as [Hr [Hfs _]].
+  destruct (eff_plan_length stable (ps_plan ps) Hnd ltac:(lia)) as (t & rest & -> & L).
+  rewrite Hfs.
+  destruct (attempts_ignored pre f (skipn (S (List.length pre)) (ps_faults ps)) (ps_resp ps) t rest Hr
+              ltac:(unfold nadv; lia) Hx) as (ts & c & E).
+  exists ts, c. split; [exact E|reflexivity].
+Qed.
+
+Lemma worker_ignored m : forall rest i st stable k,
+  ignore_point m rest = Some k ->
+  items_of (snd (worker m i st stable rest)) =
+    map IRow (concat (map fst (firstn k (script_pages rest)))) /\
+  worker_done m stable rest = true.
+Proof.
+  induction rest as [|ps rest IH]; intros i st stable k H; [discriminate|].
+  cbn [ignore_point] in H. cbn [worker worker_done].
+  destruct (page_ignored m ps) eqn:Epi.
+  - injection H as <-. destruct (fetch_ignored m stable ps Epi) as (ts & c & Ef & _). rewrite Ef.
+    cbn [snd tail_msgs firstn map concat]. split; reflexivity.
+  - destruct (is_rows (ps_resp ps) && page_retried m ps && has_next (ps_resp ps)) eqn:Eg; [|discriminate].
+    apply andb_true_iff in Eg as [Eg Hn]. apply andb_true_iff in Eg as [Hrows Hret].
+    destruct (ignore_point m rest) as [k'|] eqn:Eip; [|discriminate]. injection H as <-.
+    destruct (fetch_retried m stable ps Hret) as (ts & c & Ef & _). rewrite Ef. cbn [snd].
+    destruct (ps_resp ps) as [rows [st'|]| |] eqn:Er; try discriminate.
+    destruct (IH (S i) st' (Some c) k' eq_refl) as [I1 I2].
+    destruct (worker m (S i) st' (Some c) rest) as [rq' ms]. cbn [snd] in *.
+    split; [|exact I2].
+    change (items_of (MPage rows :: ms)) with (map IRow rows ++ items_of ms). rewrite I1.
+    cbn [script_pages map firstn]. rewrite Er. cbn [resp_page fst concat]. fold (script_pages rest).
+    rewrite map_app. reflexivity.
+Qed.
+
+Theorem seq_ignored m script k : ignore_point m script = Some k ->
+  snd (seq_run m script) = OStream (spec_truncated_stream (script_pages script) k).
+Proof.
+  destruct script as [|ps rest]; [discriminate|]. cbn [ignore_point]. intros H.
+  unfold seq_run, spec_truncated_stream. cbn [start].
+  destruct (page_ignored m ps) eqn:Epi.
+  - injection H as <-. destruct (fetch_ignored m None ps Epi) as (ts & c & Ef & ->). rewrite Ef.
+    reflexivity.
+  - destruct (is_rows (ps_resp ps) && page_retried m ps && has_next (ps_resp ps)) eqn:Eg; [|discriminate].
+    apply andb_true_iff in Eg as [Eg Hn]. apply andb_true_iff in Eg as [Hrows Hret].
+    destruct (ignore_point m rest) as [k'|] eqn:Eip; [|discriminate]. injection H as <-.
+    destruct (fetch_retried m None ps Hret) as (ts & c & Ef & _). rewrite Ef.
+    destruct (ps_resp ps) as [rows [st'|]| |] eqn:Er; try discriminate.
+    cbn [pfuture pdone].
+    destruct (worker_ignored m rest 1%nat st' (Some c) k' Eip) as [I1 I2].
+    destruct (worker m 1 st' (Some c) rest) as [rq' ms]. cbn [snd] in *. rewrite I2.
+    cbn [snd]. fold (items_of ms). rewrite I1.
+    cbn [script_pages map firstn]. rewrite Er. cbn [resp_page fst concat]. fold (script_pages rest).
+    rewrite map_app, <- !app_assoc. reflexivity.
+Qed.
+
+Theorem ignored_thm m script k : ignore_point m script = Some k ->
+  exists s0, pager_init m script = Some s0 /\
+  forall ls s, run s0 ls = Some s -> s_cons s = CEnded ->
+    s_out s = spec_truncated_stream (script_pages script) k.
+Proof.
+  intros Hi. pose proof (seq_ignored _ _ _ Hi) as Hq.
+  unfold pager_init. unfold seq_run in Hq.
+  destruct (start m script) as [rq0 [|e|rows p]] eqn:Hst.
+  - discriminate.
+  - discriminate.
+  - eexists. split; [reflexivity|]. intros ls s Hr He.
+    destruct (sched_full _ _ _ _ _ _ _ Hst Hr He) as [H1 _].
+    unfold seq_run in H1. rewrite Hst in H1. rewrite Hq in H1. injection H1 as ->. reflexivity.
+Qed.
+
+(* ===== part I ===== *)
+(* ---------- completeness of the early-drop acceptor ---------- *)
+
+(* (1) which requests have been sent: exactly those of the pages fetched so far *)
+Fixpoint pidx (p : prod) (n : nat) : Prop :=
+  match p with
+  | PFetch i _ _ _ => i = n
+  | PSend _ k => pidx k n
+  | PDone => True
+  end.
+
+Lemma pfuture_pages m : forall p n q, pidx p n -> In q (fst (pfuture m p)) -> (n <= rq_page q)%nat.
+Proof.
+  induction p as [i st stable rest|x k IH|]; intros n q Hp Hin; cbn [pidx pfuture] in *.
+  - subst n. destruct (worker_states m rest i st stable q Hin) as (j & -> & _). lia.
+  - destruct (pfuture m k) as [rq ms] eqn:E. cbn [fst] in *. apply (IH n q Hp Hin).
+  - destruct Hin.
+Qed.
+
+Lemma pidx_after_fetch i rest fr : pidx (after_fetch i rest fr) (S i).
+Proof. destruct fr as [c [rows [st'|]| |]|c|e]; cbn; auto. Qed.
+
+Definition inv_sent (R : list req) (s : sys) : Prop :=
+  exists r, s_reqs s ++ fst (pfuture (s_mode s) (s_prod s)) ++ r = R /\
+    (forall q, In q (s_reqs s) -> (rq_page q < s_fetched s)%nat) /\
+    (forall q, In q (fst (pfuture (s_mode s) (s_prod s)) ++ r) -> (s_fetched s <= rq_page q)%nat) /\
+    pidx (s_prod s) (s_fetched s) /\ (r = [] \/ s_prod s = PDone).
+
+Lemma inv_sent_step R s l s' : inv_sent R s -> step s l = Some s' -> inv_sent R s'.
+Proof.
+  intros (r & H1 & H2 & H3 & H4 & H5) Hs. unfold inv_sent. rewrite (step_mode _ _ _ Hs). destruct l.
+  - cbn [step] in Hs; unfold prod_step in Hs.
+    destruct (s_prod s) as [i st stable [|ps rest]|x k|] eqn:Ep; try discriminate.
+    + destruct H5 as [->|?]; [|discriminate]. cbn [pidx] in H4. subst i.
+      rewrite pfuture_fetch in H1, H3.
+      destruct (fetch_one (s_mode s) stable ps) as [ts fr]. cbn [fst snd] in *.
+      injection Hs as <-. cbn [s_reqs s_prod s_fetched s_mode].
+      exists []. rewrite app_nil_r in *. repeat split.
+      * rewrite <- H1, <- app_assoc. reflexivity.
+      * intros q Hq. apply in_app_or in Hq as [Hq|Hq]; [specialize (H2 q Hq); lia|].
+        apply in_map_iff in Hq as (t & <- & _). cbn. lia.
+      * intros q Hq. apply (pfuture_pages (s_mode s) _ _ q (pidx_after_fetch (s_fetched s) rest fr) Hq).
+      * apply pidx_after_fetch.
+      * left; reflexivity.
+    + cbn [pfuture pidx] in *. destruct (pfuture (s_mode s) k) as [rq ms] eqn:Ek. cbn [fst] in *.
+      destruct (s_cons s); [destruct (s_chan s); try discriminate| destruct (s_chan s); try discriminate|];
+        injection Hs as <-; cbn [s_reqs s_prod s_fetched s_mode pfuture fst]; rewrite ?Ek; cbn [fst].
+      * exists r. repeat split; try assumption. destruct H5 as [->|?]; [left; reflexivity|discriminate].
+      * exists r. repeat split; try assumption. destruct H5 as [->|?]; [left; reflexivity|discriminate].
+      * exists (rq ++ r). cbn [app pidx]. repeat split; try assumption. right; reflexivity.
+  - destruct (cons_step_frame _ _ Hs) as (-> & -> & -> & _). exists r. repeat split; assumption.
+  - destruct (drop_step_frame _ _ Hs) as (-> & -> & -> & _). exists r. repeat split; assumption.
+Qed.
+
+Lemma filter_split_length (f : req -> bool) (a b : list req) :
+  (forall q, In q a -> f q = true) -> (forall q, In q b -> f q = false) ->
+  List.length (filter f (a ++ b)) = List.length a.
+Proof.
+  intros Ha Hb. rewrite filter_app, app_length.
+  assert (filter f a = a) as ->.
+  { clear Hb. induction a as [|x a IH]; cbn [filter]; [reflexivity|].
+    rewrite (Ha x (or_introl eq_refl)). f_equal. apply IH. intros q Hq; apply Ha; right; exact Hq. }
+  assert (filter f b = []) as ->; [|cbn [List.length]; lia].
+  clear Ha. induction b as [|x b IH]; cbn [filter]; [reflexivity|].
+  rewrite (Hb x (or_introl eq_refl)). apply IH. intros q Hq; apply Hb; right; exact Hq.
+Qed.
+
+Lemma reqs_upto_mono R k k' : (k <= k')%nat -> (reqs_upto R k <= reqs_upto R k')%nat.
+Proof.
+  intros Hk. unfold reqs_upto. induction R as [|q R IH]; cbn [filter List.length]; [lia|].
+  destruct (Nat.leb (rq_page q) k) eqn:E1; destruct (Nat.leb (rq_page q) k') eqn:E2; cbn [List.length]; lia.
+Qed.
+
+Lemma inv_sent_count R s : inv_sent R s -> (1 <= s_fetched s)%nat ->
+  List.length (s_reqs s) = reqs_upto R (s_fetched s - 1).
+Proof.
+  intros (r & H1 & H2 & H3 & _) Hf. unfold reqs_upto. rewrite <- H1. symmetry.
+  apply filter_split_length.
+  - intros q Hq. apply Nat.leb_le. specialize (H2 q Hq). lia.
+  - intros q Hq. apply Nat.leb_gt. specialize (H3 q Hq). lia.
+Qed.
+
+(* (2) which messages the consumer has received: a prefix of the worker's messages, and how
+   many items they hold *)
+Fixpoint msum (ms : list msg) : nat :=
+  match ms with [] => 0%nat | x :: r => (msg_size x + msum r)%nat end.
+
+Definition cum (rows0 : nat) (MS : list msg) (k : nat) : nat := (rows0 + msum (firstn k MS))%nat.
+
+Definition inv_recv (rows0 : nat) (MS : list msg) (s : sys) : Prop :=
+  s_cons s = CActive ->
+  skipn (s_recv s) MS = s_chan s ++ snd (pfuture (s_mode s) (s_prod s)) /\
+  (List.length (s_out s) + List.length (s_cur s) = cum rows0 MS (s_recv s))%nat /\
+  ((0 < s_recv s)%nat -> (cum rows0 MS (s_recv s - 1) <= List.length (s_out s))%nat) /\
+  (s_recv s <= List.length MS)%nat.
+
+Lemma skipn_cons_inv {A} n (l : list A) x r : skipn n l = x :: r ->
+  skipn (S n) l = r /\ firstn (S n) l = firstn n l ++ [x] /\ (n < List.length l)%nat.
+Proof.
+  revert l; induction n as [|n IH]; intros l H.
+  - cbn [skipn] in H. subst l. cbn. repeat split; lia.
+  - destruct l as [|y l]; [discriminate|]. cbn [skipn] in H. destruct (IH l H) as (H1 & H2 & H3).
+    repeat split; [exact H1|cbn [firstn app]; f_equal; exact H2|cbn [List.length]; lia].
+Qed.
+
+Lemma msum_app a b : msum (a ++ b) = (msum a + msum b)%nat.
+Proof. induction a as [|x a IH]; cbn [app msum]; [reflexivity|]. rewrite IH. lia. Qed.
+
+Lemma cum_mono rows0 MS k k' : (k <= k')%nat -> (cum rows0 MS k <= cum rows0 MS k')%nat.
+Proof.
+  unfold cum. revert MS k'. induction k as [|k IH]; intros MS k' H; cbn [firstn msum]; [lia|].
+  destruct k' as [|k']; [lia|]. destruct MS as [|x MS]; cbn [firstn msum]; [lia|].
+  specialize (IH MS k'). lia.
+Qed.
+
+Lemma inv_recv_step rows0 MS s l s' : inv_recv rows0 MS s -> step s l = Some s' -> l <> LDrop ->
+  inv_recv rows0 MS s'.
+Proof.
+  intros HI Hs Hl Hc'. destruct l; [| |congruence].
+  - destruct (prod_step_frame _ _ Hs) as (Ho & Hc & Hcur & Hr). rewrite Hc in Hc'.
+    destruct (HI Hc') as (K1 & K2 & K3 & K4). rewrite Ho, Hcur, Hr. rewrite (step_mode _ _ _ Hs).
+    repeat split; try assumption. rewrite K1.
+    cbn [step] in Hs; unfold prod_step in Hs.
+    destruct (s_prod s) as [i st stable [|ps rest]|x k|] eqn:Ep; try discriminate.
+    + rewrite pfuture_fetch. destruct (fetch_one (s_mode s) stable ps) as [ts fr].
+      injection Hs as <-. cbn [s_chan s_prod snd]. reflexivity.
+    + rewrite Hc' in Hs. destruct (s_chan s) eqn:Ech; [|discriminate]. injection Hs as <-.
+      cbn [s_chan s_prod pfuture]. destruct (pfuture (s_mode s) k) as [rq ms]. reflexivity.
+  - cbn [step] in Hs; unfold cons_step in Hs.
+    destruct (s_cons s) eqn:Ec; try discriminate. destruct (HI Ec) as (K1 & K2 & K3 & K4).
+    destruct (s_cur s) as [|r0 cur'] eqn:Ecur.
+    + destruct (s_chan s) as [|[[|r1 rows]|e] ch] eqn:Ech.
+      * destruct (s_prod s) eqn:Ep; try discriminate. injection Hs as <-. cbn in Hc'. discriminate.
+      * injection Hs as <-. cbn [s_cons s_recv s_chan s_prod s_mode s_out s_cur List.length] in *.
+        cbn [app] in K1. destruct (skipn_cons_inv _ _ _ _ K1) as (S1 & S2 & S3).
+        unfold cum in *. rewrite S2, msum_app. cbn [msum msg_size List.length].
+        replace (S (s_recv s) - 1)%nat with (s_recv s) by lia.
+        repeat split; [exact S1|lia|lia|lia].
+      * injection Hs as <-. cbn [s_cons s_recv s_chan s_prod s_mode s_out s_cur List.length] in *.
+        cbn [app] in K1. destruct (skipn_cons_inv _ _ _ _ K1) as (S1 & S2 & S3).
+        unfold cum in *. rewrite S2, msum_app, app_length. cbn [msum msg_size List.length].
+        replace (S (s_recv s) - 1)%nat with (s_recv s) by lia.
+        repeat split; [exact S1|lia|lia|lia].
+      * injection Hs as <-. cbn [s_cons s_recv s_chan s_prod s_mode s_out s_cur List.length] in *.
+        cbn [app] in K1. destruct (skipn_cons_inv _ _ _ _ K1) as (S1 & S2 & S3).
+        unfold cum in *. rewrite S2, msum_app, app_length. cbn [msum msg_size List.length].
+        replace (S (s_recv s) - 1)%nat with (s_recv s) by lia.
+        repeat split; [exact S1|lia|lia|lia].
+    + injection Hs as <-. cbn [s_cons s_recv s_chan s_prod s_mode s_out s_cur List.length] in *.
+      rewrite app_length. cbn [List.length]. repeat split; [exact K1|lia|lia|lia].
+Qed.
+
+(* the consumer's last poll delivered an item: it has received no message it did not need *)
+Definition tight (rows0 : nat) (MS : list msg) (s : sys) : Prop :=
+  s_recv s = 0%nat \/ (cum rows0 MS (s_recv s - 1) < List.length (s_out s))%nat.
+
+Lemma tight_after_item rows0 MS s s' : inv_recv rows0 MS s -> step s LCons = Some s' ->
+  List.length (s_out s') = S (List.length (s_out s)) -> s_cons s' = CActive -> tight rows0 MS s'.
+Proof.
+  intros HI Hs Hlen Hc'. cbn [step] in Hs; unfold cons_step in Hs.
+  destruct (s_cons s) eqn:Ec; try discriminate. destruct (HI Ec) as (K1 & K2 & K3 & K4).
+  unfold tight. destruct (s_cur s) as [|r0 cur'] eqn:Ecur.
+  - destruct (s_chan s) as [|[[|r1 rows]|e] ch] eqn:Ech.
+    + destruct (s_prod s); try discriminate. injection Hs as <-. cbn in Hc'. discriminate.
+    + injection Hs as <-. cbn [s_out] in Hlen. lia.
+    + injection Hs as <-. cbn [s_recv s_out List.length] in *. right.
+      replace (S (s_recv s) - 1)%nat with (s_recv s) by lia. rewrite app_length. cbn [List.length]. lia.
+    + injection Hs as <-. cbn [s_recv s_out List.length] in *. right.
+      replace (S (s_recv s) - 1)%nat with (s_recv s) by lia. rewrite app_length. cbn [List.length]. lia.
+  - injection Hs as <-. cbn [s_recv s_out] in *. rewrite app_length. cbn [List.length].
+    destruct (s_recv s) as [|k]; [left; reflexivity|right; lia].
+Qed.
+
+Lemma tight_prod rows0 MS s s' : tight rows0 MS s -> step s LProd = Some s' -> tight rows0 MS s'.
+Proof.
+  intros HT Hs. destruct (prod_step_frame _ _ Hs) as (Ho & _ & _ & Hr). unfold tight. rewrite Ho, Hr. exact HT.
+Qed.
+
+Lemma msgs_needed_le n : forall ms have k, (k <= List.length ms)%nat ->
+  (n <= have + msum (firstn k ms))%nat -> (msgs_needed n have ms <= k)%nat.
+Proof.
+  induction ms as [|x ms IH]; intros have k Hk Hn; cbn [msgs_needed]; [lia|].
+  destruct (Nat.leb n have) eqn:E; [lia|]. apply Nat.leb_gt in E.
+  destruct k as [|k]; [cbn [firstn msum] in Hn; lia|].
+  cbn [firstn msum List.length] in *. specialize (IH (have + msg_size x)%nat k). lia.
+Qed.
+
+Lemma msgs_needed_ge n : forall ms have k, (1 <= k <= List.length ms)%nat ->
+  (have + msum (firstn (k - 1) ms) < n)%nat -> (k <= msgs_needed n have ms)%nat.
+Proof.
+  induction ms as [|x ms IH]; intros have k Hk Hn; cbn [msgs_needed List.length] in *; [lia|].
+  destruct (Nat.leb n have) eqn:E; [apply Nat.leb_le in E; lia|].
+  destruct k as [|[|k]]; [lia|lia|].
+  cbn [Nat.sub firstn msum] in Hn. replace (S k - 0)%nat with (S k) in Hn by lia.
+  cbn [firstn msum] in Hn.
+  specialize (IH (have + msg_size x)%nat (S k)). replace (S k - 1)%nat with k in IH by lia.
+  assert (S k <= msgs_needed n (have + msg_size x) ms)%nat; [apply IH; lia|lia].
+Qed.
+
+Lemma tight_msgs_needed rows0 MS s : inv_recv rows0 MS s -> s_cons s = CActive -> tight rows0 MS s ->
+  msgs_needed (List.length (s_out s)) rows0 MS = s_recv s.
+Proof.
+  intros HI Hc HT. destruct (HI Hc) as (K1 & K2 & K3 & K4).
+  apply Nat.le_antisymm.
+  - apply msgs_needed_le; [exact K4|]. unfold cum in K2. lia.
+  - destruct HT as [->|HT]; [lia|].
+    destruct (s_recv s) as [|k] eqn:E; [lia|]. apply msgs_needed_ge; [lia|]. unfold cum in HT. exact HT.
+Qed.
+
+Lemma is_prefix_complete {A} (eqb : A -> A -> bool) :
+  (forall x y, eqb x y = true <-> x = y) -> forall a r, is_prefix eqb a (a ++ r) = true.
+Proof.
+  intros H a r. induction a as [|x a IH]; cbn [is_prefix app]; [reflexivity|].
+  rewrite IH, andb_true_r. apply H. reflexivity.
+Qed.
+
+Lemma firstn_prefix {A} (a r : list A) : firstn (List.length a) (a ++ r) = a.
+Proof. induction a as [|x a IH]; cbn [List.length firstn app]; [reflexivity|]. rewrite IH. reflexivity. Qed.
+
+(* Every "lazy consumer" schedule is accepted: the caller has just been handed its n-th item
+   (or has not polled at all), the worker runs for any while, the caller drops, anything may
+   follow. *)
+Theorem accept_drop_complete m script s0 lsa sa sb lp s1 ls2 s2 :
+  pager_init m script = Some s0 ->
+  run s0 lsa = Some sa ->
+  (sb = sa /\ lsa = [] \/
+   step sa LCons = Some sb /\ List.length (s_out sb) = S (List.length (s_out sa))) ->
+  s_cons sb = CActive ->
+  Forall (eq LProd) lp -> run sb lp = Some s1 ->
+  run s1 (LDrop :: ls2) = Some s2 ->
+  accept_drop m script (List.length (s_out s2)) (s_out s2) (map req_key (s_reqs s2)) = true.
+Proof.
+  intros H0 Hra Hb Hcb Hlp Hrp Hr2.
+  destruct (pager_init_start _ _ _ H0) as (rq0 & rows & p & Hst & ->).
+  set (MS := snd (pfuture m p)). set (R := fst (seq_run m script)).
+  set (T := map IRow rows ++ items_of MS ++ [IEnd]).
+  (* invariants at sa *)
+  assert (forall ls s, run (init_sys m rq0 rows p) ls = Some s ->
+            (s_cons s <> CDropped -> inv_recv (List.length rows) MS s) /\ inv_sent R s) as Hinv.
+  { intros ls. induction ls as [|l ls IH] using rev_ind; intros s Hr.
+    - cbn [run] in Hr. injection Hr as <-. split.
+      + intros _ _. cbn [init_sys s_recv s_chan s_prod s_mode s_out s_cur skipn app List.length Nat.sub].
+        unfold cum. cbn [firstn msum]. repeat split; try lia.
+      + unfold inv_sent, R, seq_run. rewrite Hst. cbn [init_sys s_reqs s_mode s_prod s_fetched].
+        destruct (start_prod _ _ _ _ _ Hst) as [->|(st & c & rest & ->)].
+        * exists []. cbn [pfuture fst app pidx]. rewrite !app_nil_r. repeat split; auto.
+          all: try solve [intros q []].
+          all: intros q Hq; destruct (proj1 (states_thm m script) q) as [Hp _]; [rewrite Hst; exact Hq|]; lia.
+        * exists []. rewrite !app_nil_r. destruct (pfuture m (PFetch 1 st (Some c) rest)) as [rq ms] eqn:E.
+          cbn [fst]. repeat split; auto.
+          all: try solve [intros q Hq; destruct (proj1 (states_thm m script) q) as [Hp _]; [rewrite Hst; exact Hq|]; lia].
+          all: try solve [intros q Hq; apply (pfuture_pages m (PFetch 1 st (Some c) rest) 1%nat q); [reflexivity|rewrite E; exact Hq]].
+          all: try reflexivity.
+    - rewrite run_app in Hr. destruct (run (init_sys m rq0 rows p) ls) as [s'|] eqn:E; [|discriminate].
+      cbn [run] in Hr. destruct (step s' l) as [s''|] eqn:Es; [|discriminate]. injection Hr as <-.
+      destruct (IH s' eq_refl) as [I1 I2]. split; [|eapply inv_sent_step; eassumption].
+      intros Hnd. assert (s_cons s' <> CDropped) as Hnd' by (intros X; apply Hnd; eapply dropped_stays; eassumption).
+      assert (l <> LDrop) as Hl by (intros ->; apply Hnd; eapply drop_drops; exact Es).
+      eapply inv_recv_step; [apply I1; exact Hnd'|exact Es|exact Hl]. }
+  (* tightness at sb, then at s1 *)
+  assert (inv_recv (List.length rows) MS sb /\ tight (List.length rows) MS sb /\
+          exists lsb, run (init_sys m rq0 rows p) lsb = Some sb) as (Irb & Tb & lsb & Hrb).
+  { destruct Hb as [[-> ->]|[Hs Hl]].
+    - cbn [run] in Hra. injection Hra as <-. split; [|split].
+      + apply (proj1 (Hinv [] _ eq_refl)). cbn. discriminate.
+      + left. reflexivity.
+      + exists []. reflexivity.
+    - assert (run (init_sys m rq0 rows p) (lsa ++ [LCons]) = Some sb) as Hrb
+        by (rewrite run_app, Hra; cbn [run]; rewrite Hs; reflexivity).
+      split; [|split].
+      + apply (proj1 (Hinv _ _ Hrb)). congruence.
+      + apply (tight_after_item _ _ sa sb); try assumption.
+        apply (proj1 (Hinv _ _ Hra)). intros X. cbn [step] in Hs. unfold cons_step in Hs. rewrite X in Hs. discriminate.
+      + eexists; exact Hrb. }
+  assert (tight (List.length rows) MS s1 /\ s_cons s1 = CActive) as [T1 Hc1].
+  { clear Hr2 Hb Irb Hrb. revert sb Hcb Tb Hrp. induction Hlp as [|l lp <- _ IH]; intros sb Hcb Tb Hrp.
+    - cbn [run] in Hrp. injection Hrp as <-. split; assumption.
+    - cbn [run] in Hrp. destruct (step sb LProd) as [sc|] eqn:Es; [|discriminate].
+      destruct (prod_step_frame _ _ Es) as (_ & Hc & _).
+      apply (IH sc); try assumption; try congruence. eapply tight_prod; eassumption. }
+  assert (run (init_sys m rq0 rows p) (lsb ++ lp) = Some s1) as Hr1 by (rewrite run_app, Hrb; exact Hrp).
+  assert (run (init_sys m rq0 rows p) ((lsb ++ lp) ++ LDrop :: ls2) = Some s2) as Hrs2
+    by (rewrite run_app, Hr1; exact Hr2).
+  destruct (Hinv _ _ Hr1) as [Ir1 _]. specialize (Ir1 ltac:(congruence)).
+  pose proof (tight_msgs_needed _ _ _ Ir1 Hc1 T1) as Hk.
+  (* after the drop *)
+  destruct (early_drop _ _ _ _ _ Hr1 Hr2) as (_ & _ & _ & Ho & _).
+  cbn [run] in Hr2. destruct (step s1 LDrop) as [sd|] eqn:Ed; [|discriminate].
+  destruct (drop_step_frame _ _ Ed) as (_ & _ & _ & _ & Hrd & Hcd & _).
+  destruct (dropped_run _ _ _ Hcd Hr2) as (_ & Hrecv & _).
+  destruct (Hinv _ _ Hrs2) as [_ Is2].
+  pose proof (read_ahead _ _ _ _ _ _ _ Hst Hrs2) as Hra2.
+  pose proof (inv_sent_count _ _ Is2 ltac:(lia)) as Hcount.
+  destruct (reach_prefix _ _ _ _ _ _ _ Hst Hrs2) as [[ro Hpo] [rr Hpr]].
+  unfold accept_drop. rewrite Hst. fold MS in Hpo.
+  assert (R = rq0 ++ fst (pfuture m p)) as HR by (unfold R, seq_run; rewrite Hst; destruct (pfuture m p); reflexivity).
+  destruct (pfuture m p) as [rq ms] eqn:Ep. cbn [fst snd] in *. subst MS.
+  fold (items_of ms). rewrite <- HR.
+  rewrite Ho, Hk.
+  apply andb_true_iff; split; [apply andb_true_iff; split; [apply andb_true_iff; split|]|].
+  - apply (list_eqb_eq item_eqb item_eqb_eq). rewrite <- Hpo, <- Ho. symmetry. rewrite Ho. apply firstn_prefix.
+  - unfold R. rewrite <- Hpr, map_app. apply (is_prefix_complete key_eqb key_eqb_eq).
+  - apply Nat.leb_le. rewrite map_length, Hcount. apply reqs_upto_mono. lia.
+  - apply Nat.leb_le. rewrite map_length, Hcount. apply reqs_upto_mono. lia.
 Qed.
